@@ -86,3 +86,20 @@ PROPS["C05"] = {
               "text": "Generated-input search: trees of derived loggers are built and used in generated orders (derivations interleaved with events through any node, several events open at once); every event must carry exactly the context fields, hook fields, level gate, sampler decisions, stack flag and Go context of its own derivation path, per destination. Held on everything explored.",
               "note": "Sequential histories are deterministic (pool state is scrubbed before each program). Concurrent use of different nodes is exercised by the race-mode job only on schedules the Go runtime produces."},
 }
+
+GiB = 1 << 30
+PROPS["C17"] = {
+    "jobs": [
+        {"name": "headers", "pkg": "./c17", "tags": "binary_log verif", "run": "^TestExhaustiveHeaders$", "shards": T(2, 16), "rlimit_as": 12 * GiB, "death_is_violation": True, "timeout": T(600, 3600)},
+        {"name": "structured", "pkg": "./c17", "tags": "binary_log verif", "run": "^TestRapidStructured$", "rapid": T(6000, 40000), "shards": T(2, 8), "rlimit_as": 12 * GiB, "death_is_violation": True, "replay": "^TestReplay$"},
+        {"name": "mutations", "pkg": "./c17", "tags": "binary_log verif", "run": "^TestRapidMutations$", "rapid": T(4000, 30000), "shards": T(2, 8), "rlimit_as": 12 * GiB, "death_is_violation": True},
+        {"name": "cuts", "pkg": "./c17", "tags": "binary_log verif", "run": "^(TestRapidCutPoints|TestRegress)$", "rapid": T(600, 4000), "shards": T(2, 8), "rlimit_as": 12 * GiB},
+        {"name": "fuzz", "pkg": "./c17", "tags": "binary_log verif", "run": "^FuzzDecoder$", "fuzz": "^FuzzDecoder$", "fuzztime": T(0, 240), "thorough_only": True, "rlimit_as": 0, "timeout": T(600, 1200)},
+    ],
+    "assumptions": ["allocation is measured per call with runtime/metrics as a screen and runtime.ReadMemStats (exact) when the screen exceeds the bound; bound = 64 KiB + 64 x len(input), deliberately loose",
+                    "valid streams are produced by the binary_log logger itself from generated logging programs",
+                    "a process death (out of memory) while decoding is reported as a violation with the in-flight input as replay; the job runs under RLIMIT_AS=12GiB"],
+    "claim": {"ref": "DESIGN.md §5 C17", "technique": "exhaustive header enumeration + structure-aware rapid generation + mutation of valid streams + exhaustive cut points (+ native go fuzzing in thorough); oracle: no escaping panic, allocation bound, prefix stability",
+              "text": "Generated-input search over byte strings: every 1-2 byte string (and every 3-byte string in thorough) alone and before a valid event; structure-aware malformed CBOR (lying lengths, reserved additional info, misplaced breaks, wrong tag content, deep nesting); mutated logger output; and every cut offset of generated valid streams. Each call must return without any panic escaping, allocate no more than 64 KiB + 64 x input, decode all whole events of a prefix exactly as in the full stream and report a partial trailing event as an error. Held on everything explored.",
+              "note": "Trusts Go runtime memory statistics, cborref (classification only). Native fuzzing cannot be seeded; its saved inputs are the reproducible unit."},
+}
